@@ -123,18 +123,9 @@ def explain(stream, fields, check):
         if check == "eq-panic" and G.has_big_digit_run(rs):
             return "debversion-eq-digit-run-overflow"
         return None
-    if stream == "rel-lossy-conv":
-        rs = G.rels_of(fields[0])
-        flat = [x for e in rs for x in e]
-        if "#" in check:
-            kind, i = check.split("#"); x = flat[int(i)]
-            neg = x["archs"] is not None and any(a.startswith("!") for a in x["archs"])
-            epoch = x["ver"] is not None and x["ver"][1] is not None
-            big = x["ver"] is not None and G.max_digit_run(x["ver"]) >= 2 ** 31
-            if kind == "ll-err" and epoch: return "lossless-reader-rejects-epoch"
-            if kind == "ll-diff" and neg and not epoch: return "lossless-accessor-drops-arch-negation"
-            if kind in ("ll-panic",) and big: return "debversion-eq-digit-run-overflow"
-        return None
+    # rel-lossy-conv: rows 11 and 12 (lossless reader rejecting an epoch, architectures() dropping '!')
+    # and versions with an empty colon-delimited part are fixed in /repo (0eb8794, c2fa7c8, 4b18f7c,
+    # 541b0f5): no known class is left there.
     return None
 
 class C14(Prop):
